@@ -1,1 +1,640 @@
-fn main() { eprintln!("not built yet"); std::process::exit(2) }
+//! E5 `pagesearch`: decides C19 "index page search never misses a matching entry".
+//!
+//! Three layers inside `pdbv-pagesearch C19 <quick|thorough>`:
+//!   1. native differential testing of `IndexTable::find_entry_sse2` / `find_entry_base` (through
+//!      the hook `parity_db::verif_index::find_entry_both`) against an independent scalar
+//!      specification (`cases.rs`): a structured sweep plus seeded random cases;
+//!   2. the same generator / oracle under Miri (`pagesearch/miri`, one child per shard) for
+//!      undefined behaviour, out-of-bounds and alignment of the SIMD loads;
+//!   3. (thorough) the native layer again in an AddressSanitizer build of this binary.
+//!
+//! `pdbv-pagesearch --worker <seed> <seconds> <max_cases>` is the entry used for layer 3.
+
+mod cases;
+mod native;
+mod tools;
+mod rng {
+	pub use pv::rng::Rng;
+}
+
+use cases::{Case, Failure};
+use native::Stats;
+use pv::{run::main_entry, Ctx, Report, Spec, Tier, J};
+use std::{
+	path::PathBuf,
+	time::{Duration, Instant},
+};
+
+const RULE: &str = "One evaluation = one search (index_bits ib, 64-slot page, key_prefix, start position p) run through BOTH \
+library paths via parity_db::verif_index::find_entry_both and compared with a specification written independently in the \
+harness: spec_exact = first slot i >= p with page[i] != 0 and page[i] >> (ib+14) == (key_prefix << ib) >> (ib+14); spec_fast \
+= spec_exact when the key's compared word w = ((key_prefix << ib) >> max(32, ib+14)) as u32 is 0, otherwise the first slot \
+i >= p with ((page[i] >> max(32, ib+14)) as u32) == w. Checks per case: (a) vectorised result (slot and entry) == spec_fast; \
+(b) scalar result == spec_exact; (c) a returned slot is >= p and < 64, the returned entry equals page[slot] and is non-zero, \
+'absent' is exactly (0,0); (d) whenever the scalar search finds slot j the vectorised search finds a slot <= j; a panic \
+inside either search is a violation. Counted in 'evaluations': native cases (structured sweep: every ib 16..=48 x every \
+start 0..=64 x every target slot x 5 page shapes; plus seeded random cases over 7 page kinds x 5 key kinds) + the cases \
+interpreted by Miri (same generator, same checks, -Zmiri-symbolic-alignment-check -Zmiri-strict-provenance; additionally \
+every start position 0..=64 for every ib on a page whose only match is slot 63) + (thorough) cases run in an \
+AddressSanitizer build. distinct_nontrivial = distinct (ib, page kind, key kind, outcome class, start bucket) tuples seen \
+natively, outcome class in {absent, found_same, fast_earlier(than the exact match), fast_only, zero_word_found, \
+zero_word_absent}. Index sizes are restricted to 16..=48: at ib >= 50 the shift ib+14 reaches 64 bits in both paths \
+(degenerate, no such table can be created) and MIN_INDEX_BITS is 16. Start position 64 (what Column passes after a hit \
+in slot 63) is included. A Miri 'Undefined Behavior' report or an AddressSanitizer report is a violation; a tool that \
+cannot be built or times out makes the run inconclusive, never violated.";
+
+struct Plan {
+	native_per_shard: u64,
+	native_cap: Duration,
+	native_min_time: Duration,
+	miri_random: u64,
+	miri_limit: Duration,
+	asan_secs: u64,
+}
+
+fn plan(tier: Tier) -> Plan {
+	match tier {
+		Tier::Quick => Plan {
+			native_per_shard: 6_250_000, // x16 = 10^8
+			native_cap: Duration::from_secs(25),
+			native_min_time: Duration::from_secs(0),
+			miri_random: 250,
+			miri_limit: Duration::from_secs(32),
+			asan_secs: 0,
+		},
+		Tier::Thorough => Plan {
+			native_per_shard: 62_500_000, // x16 = 10^9
+			native_cap: Duration::from_secs(420),
+			native_min_time: Duration::from_secs(240),
+			miri_random: 5000,
+			miri_limit: Duration::from_secs(420),
+			asan_secs: 90,
+		},
+	}
+}
+
+fn spec_for(prop: &str, tier: Tier) -> Option<Spec> {
+	if prop != "C19" {
+		return None
+	}
+	let mut s = Spec::new("C19", "exploration", RULE)
+		.assume("x86_64 host with SSE2: the vectorised path is compiled only for target_arch = x86_64 (elsewhere both hook results are the scalar search)")
+		.assume("index sizes 16..=48 (MIN_INDEX_BITS = 16; ib >= 50 makes ib+14 >= 64, not a constructible table)")
+		.assume("the page is passed by value into an 8-byte aligned Chunk exactly as Column does; the mmap / log-overlay origin of a page is not part of this property")
+		.require("native_cases", tier.pick(20_000_000, 1_000_000_000))
+		.require("sweep_index_sizes_completed", 33)
+		.require("fast_found", 1_000_000)
+		.require("fast_absent", 1_000_000)
+		.require("fast_earlier_than_exact", 10_000)
+		.require("fast_only_exact_absent", 10_000)
+		.require("zero_word_fallback", 100_000)
+		.require("zero_word_fallback_found", 10_000)
+		.require("start_64", 10_000)
+		.require("start_unaligned", 1_000_000)
+		.require("ib_16_17", 1_000_000)
+		.require("miri_cases", tier.pick(2_500, 40_000))
+		.require("miri_children_ok", 8)
+		.budget(60, 840);
+	if tier == Tier::Thorough {
+		s = s.require("asan_cases", 1_000_000);
+	}
+	s.min_distinct = 1000;
+	s.case_timeout_s = 300;
+	Some(s)
+}
+
+// ---------------------------------------------------------------------------------------------
+
+fn hex_page(page: &[u64; 64]) -> String {
+	pv::json::hex(&cases::page_bytes(page))
+}
+
+fn parse_page(h: &str) -> Option<[u64; 64]> {
+	let h = h.trim();
+	if h.len() != 1024 {
+		return None
+	}
+	let mut page = [0u64; 64];
+	for (i, s) in page.iter_mut().enumerate() {
+		let mut b = [0u8; 8];
+		for (k, byte) in b.iter_mut().enumerate() {
+			let o = i * 16 + k * 2;
+			*byte = u8::from_str_radix(&h[o..o + 2], 16).ok()?;
+		}
+		*s = u64::from_le_bytes(b);
+	}
+	Some(page)
+}
+
+fn case_json(c: &Case, layer: &str) -> J {
+	J::obj()
+		.set("layer", J::s(layer))
+		.set("index_bits", J::i(c.ib as u64))
+		.set("key_prefix", J::s(format!("{:016x}", c.key)))
+		.set("p", J::i(c.p as u64))
+		.set("page", J::s(hex_page(&c.page)))
+		.set("page_kind", J::s(cases::PAGE_KINDS[c.page_kind as usize & 7]))
+		.set("key_kind", J::s(cases::KEY_KINDS[(c.key_kind as usize).min(4)]))
+}
+
+fn report_failure(rep: &mut Report, c: &Case, f: &Failure, layer: &str) {
+	rep.violation(
+		format!("scenario=C19;failure={};layer={};ib={}", f.kind, layer, c.ib),
+		format!("[{} layer, page kind {}, key kind {}] {}", layer, cases::PAGE_KINDS[c.page_kind as usize & 7], cases::KEY_KINDS[(c.key_kind as usize).min(4)], f.detail),
+		case_json(c, layer),
+	);
+}
+
+fn flush_stats(rep: &mut Report, st: &Stats, counter: &str) {
+	// called once per layer with the final statistics
+	rep.evaluations += st.cases;
+	rep.cases += st.cases;
+	rep.count(counter, st.cases);
+	if counter == "native_cases" {
+		rep.count("sweep_cases", st.sweep_cases);
+		rep.count("fast_found", st.fast_found);
+		rep.count("fast_absent", st.fast_absent);
+		rep.count("exact_found", st.exact_found);
+		rep.count("fast_earlier_than_exact", st.fast_earlier);
+		rep.count("fast_only_exact_absent", st.fast_only);
+		rep.count("zero_word_fallback", st.zero_word);
+		rep.count("zero_word_fallback_found", st.zero_word_found);
+		rep.count("start_64", st.start_64);
+		rep.count("start_unaligned", st.start_unaligned);
+		rep.count("hit_in_start_group", st.hit_in_start_group);
+		rep.count("hit_last_slot", st.hit_last_slot);
+		rep.count("ib_16_17", st.ib_dropping);
+		rep.count("ib_18", st.ib_18);
+		rep.count("ib_19_29", st.ib_19_29);
+		rep.count("ib_30_34", st.ib_30_34);
+		rep.count("ib_35_48", st.ib_35_48);
+		for (i, n) in st.page_kind.iter().enumerate() {
+			rep.count(&format!("page_{}", cases::PAGE_KINDS[i]), *n);
+		}
+		for (i, n) in st.key_kind.iter().enumerate() {
+			rep.count(&format!("key_{}", cases::KEY_KINDS[i]), *n);
+		}
+		for c in &st.classes {
+			rep.seen(native::class_name(*c));
+		}
+		for (c, o) in &st.samples {
+			rep.sample(
+				case_json(c, "native")
+					.set("vectorised_slot", o.fast.map_or(J::Null, |s| J::i(s as u64)))
+					.set("scalar_slot", o.exact.map_or(J::Null, |s| J::i(s as u64)))
+					.set("outcome", J::s(cases::OUTCOME_CLASSES[o.class() as usize]))
+					.set("checks", J::s("a,b,c,d passed")),
+			);
+		}
+	}
+}
+
+fn work_dir(ctx: &Ctx) -> PathBuf {
+	match &ctx.out {
+		Some(o) => o.parent().map(|p| p.to_path_buf()).unwrap_or_else(std::env::temp_dir),
+		None => std::env::temp_dir(),
+	}
+}
+
+fn miri_sweep_list(shard: usize, nshards: usize) -> String {
+	(cases::IB_MIN..=cases::IB_MAX)
+		.filter(|ib| (*ib - cases::IB_MIN) as usize % nshards == shard)
+		.map(|ib| ib.to_string())
+		.collect::<Vec<_>>()
+		.join(",")
+}
+
+/// "k=v" fields of a MIRI_CHECK_FAIL / WORKER_FAIL line
+fn parse_fail_line(line: &str) -> Option<(String, Case, String)> {
+	let (head, detail) = line.split_once(" :: ").unwrap_or((line, ""));
+	let mut kind = String::new();
+	let mut c = Case { ib: 0, key: 0, p: 0, page: [0; 64], page_kind: 7, key_kind: 0 };
+	for kv in head.split_whitespace() {
+		if let Some((k, v)) = kv.split_once('=') {
+			match k {
+				"kind" => kind = v.to_string(),
+				"ib" => c.ib = v.parse().ok()?,
+				"key" => c.key = u64::from_str_radix(v, 16).ok()?,
+				"p" => c.p = v.parse().ok()?,
+				"page" => c.page = parse_page(v)?,
+				_ => {},
+			}
+		}
+	}
+	if kind.is_empty() || c.ib == 0 {
+		return None
+	}
+	Some((kind, c, detail.to_string()))
+}
+
+fn fail_line(prefix: &str, c: &Case, f: &Failure) -> String {
+	format!("{} kind={} ib={} key={:016x} p={} page={} :: {}", prefix, f.kind, c.ib, c.key, c.p, hex_page(&c.page), f.detail.replace('\n', " "))
+}
+
+fn static_kind(k: &str) -> &'static str {
+	for s in [
+		"panic",
+		"returned_empty_slot",
+		"slot_out_of_page",
+		"slot_before_start",
+		"entry_not_at_slot",
+		"scalar_mismatch",
+		"fast_missed_match",
+		"fast_skipped_match",
+		"fast_mismatch",
+	] {
+		if s == k {
+			return s
+		}
+	}
+	"check_failed"
+}
+
+fn run_miri_layer(ctx: &Ctx, rep: &mut Report, pl: &Plan, token: &str) {
+	let dir = work_dir(ctx);
+	ctx.mark("waiting for the Miri build");
+	let built = {
+		let mut alive = || ctx.checkpoint(rep);
+		tools::wait_ready(&tools::miri_target(), token, Duration::from_secs(1300), &mut alive)
+	};
+	match built {
+		Ok(s) =>
+			if ctx.shard == 0 {
+				rep.notes.push(format!("Miri build / freshness check took {:.1} s (outside the case budget)", s));
+			},
+		Err(e) => {
+			if ctx.shard == 0 {
+				rep.inconclusive(format!("Miri layer not run: {}", e));
+			}
+			return
+		},
+	}
+	let sweep = miri_sweep_list(ctx.shard, ctx.nshards);
+	let seed = ctx.seed;
+	ctx.mark(&format!("miri child seed={} count={} sweep={}", seed, pl.miri_random, sweep));
+	let r = {
+		let mut alive = || ctx.checkpoint(rep);
+		tools::run_captured(tools::miri_command(seed, pl.miri_random, &sweep, false), &dir, "miri", Instant::now() + pl.miri_limit, &mut alive)
+	};
+	ctx.unmark();
+	let replay = J::obj()
+		.set("layer", J::s("miri"))
+		.set("miri_seed", J::s(seed.to_string()))
+		.set("miri_count", J::i(pl.miri_random))
+		.set("miri_sweep", J::s(sweep.clone()));
+	// cases completed
+	let mut done = 0u64;
+	for l in r.stdout.lines() {
+		if let Some(rest) = l.strip_prefix("MIRI_CASES ") {
+			done = rest.split_whitespace().next().and_then(|x| x.parse().ok()).unwrap_or(0);
+		}
+	}
+	if let Some(l) = r.stdout.lines().find(|l| l.starts_with("MIRI_CHECK_FAIL ")) {
+		match parse_fail_line(l) {
+			Some((kind, c, detail)) => report_failure(rep, &c, &Failure { kind: static_kind(&kind), detail }, "miri"),
+			None => rep.violation("scenario=C19;failure=check_failed;layer=miri", l.to_string(), replay.clone()),
+		}
+		return
+	}
+	if r.stderr.contains("Undefined Behavior") {
+		let at = r.stderr.find("Undefined Behavior").unwrap_or(0);
+		let start = r.stderr[..at].rfind('\n').map_or(0, |i| i + 1);
+		let text: String = r.stderr[start..].chars().take(3000).collect();
+		rep.violation(
+			"scenario=C19;failure=miri_ub;layer=miri",
+			format!("Miri reported undefined behaviour in the page search (child seed={} count={} sweep={}):\n{}", seed, pl.miri_random, sweep, text),
+			replay,
+		);
+		return
+	}
+	// reaching the time limit is a normal end of this layer: the cases completed so far count (the
+	// coverage requirement on miri_cases decides whether that was enough)
+	let mut cut = false;
+	if r.timed_out {
+		done = r.stdout.lines().filter_map(|l| l.strip_prefix("MIRI_PROGRESS ")).filter_map(|x| x.trim().parse::<u64>().ok()).max().unwrap_or(0);
+		if done == 0 {
+			rep.inconclusive(format!("shard {}: Miri child completed no case within {:?} (killed): {}", ctx.shard, pl.miri_limit, tools::tail_chars(&r.stderr, 600)));
+			return
+		}
+		cut = true;
+		rep.count("miri_children_stopped_at_time_limit", 1);
+	}
+	match r.status {
+		st if cut || (st.map_or(false, |s| s.success()) && done > 0) => {
+			let _ = st;
+			rep.evaluations += done;
+			rep.cases += done;
+			rep.count("miri_cases", done);
+			rep.count("miri_children_ok", 1);
+			rep.max("miri_child_wall_s", r.wall.as_secs());
+			if ctx.shard == 0 {
+				rep.notes.push(format!("Miri: {} cases in {:.1} s in one child = {:.1} cases/s per process", done, r.wall.as_secs_f64(), done as f64 / r.wall.as_secs_f64().max(0.001)));
+			}
+		},
+		st => rep.inconclusive(format!("shard {}: Miri child failed without a UB report ({:?}): {}", ctx.shard, st, tools::tail_chars(&r.stderr, 1200))),
+	}
+}
+
+fn run_asan_layer(ctx: &Ctx, rep: &mut Report, pl: &Plan, token: &str) {
+	let dir = work_dir(ctx);
+	ctx.mark("waiting for the AddressSanitizer build");
+	let built = {
+		let mut alive = || ctx.checkpoint(rep);
+		tools::wait_ready(&tools::asan_target(), token, Duration::from_secs(1900), &mut alive)
+	};
+	match built {
+		Ok(s) =>
+			if ctx.shard == 0 {
+				rep.notes.push(format!("AddressSanitizer build / freshness check took {:.1} s", s));
+			},
+		Err(e) => {
+			if ctx.shard == 0 {
+				rep.inconclusive(format!("AddressSanitizer layer not run: {}", e));
+			}
+			return
+		},
+	}
+	let seed = ctx.seed ^ 0xA5A5_0000;
+	ctx.mark(&format!("asan worker seed={} seconds={}", seed, pl.asan_secs));
+	let r = {
+		let mut alive = || ctx.checkpoint(rep);
+		tools::run_captured(tools::asan_command(seed, pl.asan_secs, u64::MAX / 4), &dir, "asan", Instant::now() + Duration::from_secs(pl.asan_secs * 3 + 60), &mut alive)
+	};
+	ctx.unmark();
+	let replay = J::obj().set("layer", J::s("asan")).set("asan_seed", J::s(seed.to_string())).set("asan_seconds", J::i(pl.asan_secs));
+	let mut done = 0u64;
+	for l in r.stdout.lines() {
+		if let Some(rest) = l.strip_prefix("WORKER_CASES ") {
+			done = rest.split_whitespace().next().and_then(|x| x.parse().ok()).unwrap_or(0);
+		}
+	}
+	let mut failed = false;
+	for l in r.stdout.lines().filter(|l| l.starts_with("WORKER_FAIL ")).take(5) {
+		failed = true;
+		match parse_fail_line(l) {
+			Some((kind, c, detail)) => report_failure(rep, &c, &Failure { kind: static_kind(&kind), detail }, "asan"),
+			None => rep.violation("scenario=C19;failure=check_failed;layer=asan", l.to_string(), replay.clone()),
+		}
+	}
+	if r.stderr.contains("AddressSanitizer") && r.stderr.contains("ERROR") {
+		let at = r.stderr.find("ERROR: AddressSanitizer").unwrap_or(0);
+		let text: String = r.stderr[at..].chars().take(4000).collect();
+		rep.violation(
+			"scenario=C19;failure=asan_report;layer=asan",
+			format!("AddressSanitizer report while running the page search (worker seed={}):\n{}", seed, text),
+			replay,
+		);
+		return
+	}
+	if r.timed_out {
+		rep.inconclusive(format!("shard {}: AddressSanitizer worker exceeded its time limit (killed)", ctx.shard));
+		return
+	}
+	match r.status {
+		Some(st) if (st.success() || (failed && st.code() == Some(3))) && done > 0 => {
+			rep.evaluations += done;
+			rep.cases += done;
+			rep.count("asan_cases", done);
+			if ctx.shard == 0 {
+				rep.notes.push(format!("ASan: {} cases in {:.1} s in one worker = {:.0} cases/s per process", done, r.wall.as_secs_f64(), done as f64 / r.wall.as_secs_f64().max(0.001)));
+			}
+		},
+		Some(st) if matches!(std::os::unix::process::ExitStatusExt::signal(&st), Some(libc::SIGSEGV | libc::SIGBUS | libc::SIGILL | libc::SIGABRT | libc::SIGFPE)) => {
+			// died from a fatal signal without an ASan report (e.g. a faulting aligned load)
+			rep.violation(
+				format!("scenario=C19;failure=asan_worker_crash;layer=asan;signal={}", std::os::unix::process::ExitStatusExt::signal(&st).unwrap_or(0)),
+				format!("the AddressSanitizer worker (seed={}) died from a fatal signal while running the page search: {:?}\n{}", seed, st, tools::tail_chars(&r.stderr, 2000)),
+				replay,
+			);
+		},
+		st => rep.inconclusive(format!("shard {}: AddressSanitizer worker failed without a report ({:?}): {}", ctx.shard, st, tools::tail_chars(&r.stderr, 1200))),
+	}
+}
+
+fn replay(_ctx: &Ctx, rep: &mut Report, j: &J) {
+	let layer = j.get("layer").and_then(|x| x.as_str()).unwrap_or("native").to_string();
+	// a shard that died (SIGSEGV ...) leaves only the text of its mark
+	if let Some(case) = j.get("case").and_then(|x| x.as_str()) {
+		if let Some(rest) = case.strip_prefix("native_block ") {
+			let mut seed = 0u64;
+			let mut block = 0u64;
+			for kv in rest.split_whitespace() {
+				match kv.split_once('=') {
+					Some(("seed", v)) => seed = v.parse().unwrap_or(0),
+					Some(("block", v)) => block = v.parse().unwrap_or(0),
+					_ => {},
+				}
+			}
+			eprintln!("re-running native block {} of shard seed {} ({} cases)", block, seed, native::BLOCK);
+			let mut st = Stats::default();
+			native::run_random(seed, block, native::BLOCK, &mut st, &mut |_, _| true);
+			for (c, f) in &st.failures {
+				report_failure(rep, c, f, "native");
+			}
+			rep.evaluations += st.cases;
+			return
+		}
+		if let Some(rest) = case.strip_prefix("native_sweep ") {
+			let mut seed = 0u64;
+			let mut ib = 16u8;
+			for kv in rest.split_whitespace() {
+				match kv.split_once('=') {
+					Some(("seed", v)) => seed = v.parse().unwrap_or(0),
+					Some(("ib", v)) => ib = v.parse().unwrap_or(16),
+					_ => {},
+				}
+			}
+			eprintln!("re-running the structured sweep of ib={} with shard seed {}", ib, seed);
+			let mut st = Stats::default();
+			native::run_sweep(ib, seed, &mut st, Instant::now() + Duration::from_secs(3600));
+			for (c, f) in &st.failures {
+				report_failure(rep, c, f, "native");
+			}
+			rep.evaluations += st.cases;
+			return
+		}
+		eprintln!("replay of '{}' is not supported in-process; re-run the tier with the same VERIF_SEED", case);
+		return
+	}
+	if layer == "miri" && j.get("page").is_none() {
+		let seed: u64 = j.get("miri_seed").and_then(|x| x.as_str()).and_then(|s| s.parse().ok()).unwrap_or(1);
+		let count = j.get("miri_count").and_then(|x| x.as_u64()).unwrap_or(0);
+		let sweep = j.get("miri_sweep").and_then(|x| x.as_str()).unwrap_or("").to_string();
+		eprintln!("re-running the Miri child seed={} count={} sweep={} (verbose: the last CASE line is the failing one)", seed, count, sweep);
+		let r = tools::run_captured(tools::miri_command(seed, count, &sweep, true), &std::env::temp_dir(), "miri-replay", Instant::now() + Duration::from_secs(3600), &mut || {});
+		let last_case = r.stdout.lines().filter(|l| l.starts_with("CASE ")).last().unwrap_or("").to_string();
+		eprintln!("{}", tools::tail_chars(&r.stderr, 4000));
+		println!("last case started: {}", last_case);
+		rep.evaluations += 1;
+		if r.stderr.contains("Undefined Behavior") {
+			rep.violation("scenario=C19;failure=miri_ub;layer=miri", format!("reproduced; last case: {}", last_case), J::Null);
+		}
+		return
+	}
+	if layer == "asan" && j.get("page").is_none() {
+		let seed: u64 = j.get("asan_seed").and_then(|x| x.as_str()).and_then(|s| s.parse().ok()).unwrap_or(1);
+		let secs = j.get("asan_seconds").and_then(|x| x.as_u64()).unwrap_or(30);
+		if let Err(e) = tools::asan_build(&std::env::temp_dir(), Duration::from_secs(1800)) {
+			eprintln!("cannot build the AddressSanitizer copy: {}", e);
+			return
+		}
+		let r = tools::run_captured(tools::asan_command(seed, secs, u64::MAX / 4), &std::env::temp_dir(), "asan-replay", Instant::now() + Duration::from_secs(secs * 3 + 60), &mut || {});
+		eprintln!("{}", tools::tail_chars(&r.stderr, 6000));
+		rep.evaluations += 1;
+		if r.stderr.contains("ERROR: AddressSanitizer") {
+			rep.violation("scenario=C19;failure=asan_report;layer=asan", "reproduced (report above)", J::Null);
+		}
+		return
+	}
+	// a single written-out case
+	let ib = j.get("index_bits").and_then(|x| x.as_u64()).expect("replay needs index_bits") as u8;
+	let key = u64::from_str_radix(j.get("key_prefix").and_then(|x| x.as_str()).expect("replay needs key_prefix").trim_start_matches("0x"), 16).expect("key_prefix hex");
+	let p = j.get("p").and_then(|x| x.as_u64()).expect("replay needs p") as usize;
+	let page = parse_page(j.get("page").and_then(|x| x.as_str()).expect("replay needs page")).expect("page = 1024 hex digits");
+	let c = Case { ib, key, p, page, page_kind: 7, key_kind: 0 };
+	println!(
+		"case: ib={} (address bits {}, fast shift {}) key_prefix={:#018x} partial={:#x} compared_word={:#010x} p={}",
+		ib,
+		cases::address_bits(ib),
+		cases::fast_shift(ib),
+		key,
+		cases::key_partial(ib, key),
+		cases::key_compared(ib, key),
+		p
+	);
+	for (i, e) in page.iter().enumerate() {
+		if *e != 0 {
+			println!(
+				"  slot {:2}: {:#018x} partial={:#x} compared_word={:#010x}{}{}",
+				i,
+				e,
+				cases::entry_partial(ib, *e),
+				cases::entry_compared(ib, *e),
+				if cases::entry_partial(ib, *e) == cases::key_partial(ib, key) { "  <- exact match" } else { "" },
+				if cases::entry_compared(ib, *e) == cases::key_compared(ib, key) { "  <- fast-path match" } else { "" }
+			);
+		}
+	}
+	println!("specification: exact {:?}, fast {:?}", cases::spec_exact(ib, key, p, &page), cases::spec_fast(ib, key, p, &page));
+	let bytes = cases::page_bytes(&page);
+	match pv::scratch::catch(|| parity_db::verif_index::find_entry_both(ib, key, p, &bytes)) {
+		Ok((f, b)) => println!("library: vectorised (entry {:#018x}, slot {}), scalar (entry {:#018x}, slot {})", f.0, f.1, b.0, b.1),
+		Err(e) => println!("library: panic {}", e),
+	}
+	rep.evaluations += 1;
+	match cases::check_case(&c) {
+		Ok(o) => println!("all checks passed: {:?}", o),
+		Err(f) => report_failure(rep, &c, &f, "native"),
+	}
+}
+
+fn shard(ctx: &Ctx, rep: &mut Report) {
+	if let Some(j) = &ctx.replay {
+		replay(ctx, rep, j);
+		return
+	}
+	let mut pl = plan(ctx.tier);
+	// development aid: `layers=native,miri,asan` runs exactly the listed layers (the coverage
+	// requirements of the skipped ones then make a clean run inconclusive)
+	let layers = ctx.opt("layers");
+	let on = |l: &str| layers.as_ref().map_or(true, |s| s.split(',').any(|x| x == l));
+	if layers.is_some() && on("asan") && pl.asan_secs == 0 {
+		pl.asan_secs = 10;
+	}
+	let with_asan = pl.asan_secs > 0 && on("asan");
+	let token = tools::run_token();
+	if ctx.shard == 0 {
+		// toolchain work happens once, in the background, while every shard does native work
+		tools::spawn_prepare(token.clone(), work_dir(ctx), on("miri"), with_asan);
+	}
+	if !on("native") {
+		pl.native_per_shard = 0;
+		pl.native_min_time = Duration::from_secs(0);
+	}
+
+	// ---- layer 1: native
+	let t0 = Instant::now();
+	let deadline = t0 + pl.native_cap;
+	let mut st = Stats::default();
+	let mut swept = 0u64;
+	for ib in cases::IB_MIN..=cases::IB_MAX {
+		if !on("native") || (ib - cases::IB_MIN) as usize % ctx.nshards != ctx.shard {
+			continue
+		}
+		ctx.mark(&format!("native_sweep ib={} seed={}", ib, ctx.seed));
+		if native::run_sweep(ib, ctx.seed, &mut st, deadline) {
+			swept += 1;
+		}
+		ctx.checkpoint(rep);
+	}
+	rep.count("sweep_index_sizes_completed", swept);
+	let sweep_cases = st.cases;
+	{
+		let seed = ctx.seed;
+		let mut tick = |s: &Stats, block: u64| -> bool {
+			ctx.mark(&format!("native_block seed={} block={}", seed, block));
+			ctx.progress();
+			let el = t0.elapsed();
+			if el >= pl.native_cap {
+				return false
+			}
+			// thorough: keep going past the case target until the minimum time slice is used
+			!(s.cases - sweep_cases >= pl.native_per_shard && el >= pl.native_min_time)
+		};
+		let max = if pl.native_min_time.is_zero() { pl.native_per_shard } else { u64::MAX / 4 };
+		native::run_random(ctx.seed, 0, max, &mut st, &mut tick);
+	}
+	ctx.unmark();
+	for (c, f) in &st.failures {
+		report_failure(rep, c, f, "native");
+	}
+	flush_stats(rep, &st, "native_cases");
+	let secs = t0.elapsed().as_secs_f64();
+	rep.max("native_shard_wall_s", secs as u64);
+	if ctx.shard == 0 {
+		rep.notes.push(format!("native: {} cases in {:.1} s in one shard = {:.0} cases/s per process", st.cases, secs, st.cases as f64 / secs.max(0.001)));
+	}
+	if st.failures_total >= 20 {
+		rep.notes.push(format!("shard {} stopped its native layer after 20 failing cases", ctx.shard));
+	}
+	ctx.checkpoint(rep);
+
+	// ---- layer 2: Miri
+	if on("miri") {
+		run_miri_layer(ctx, rep, &pl, &token);
+	}
+	ctx.checkpoint(rep);
+
+	// ---- layer 3: AddressSanitizer (thorough)
+	if with_asan {
+		run_asan_layer(ctx, rep, &pl, &token);
+	}
+}
+
+/// `--worker <seed> <seconds> <max_cases>`: native random layer without the runner; used for the
+/// AddressSanitizer copy. stdout: WORKER_FAIL lines, then WORKER_CASES <n>. exit 0 / 3.
+fn worker(args: &[String]) -> ! {
+	let seed: u64 = args.first().and_then(|s| s.parse().ok()).unwrap_or(1);
+	let secs: u64 = args.get(1).and_then(|s| s.parse().ok()).unwrap_or(10);
+	let max: u64 = args.get(2).and_then(|s| s.parse().ok()).unwrap_or(u64::MAX / 4);
+	let t0 = Instant::now();
+	let mut st = Stats::default();
+	// a short sweep first (two index sizes: one that drops bits, one that does not)
+	for ib in [16u8 + (seed % 3) as u8, 19 + (seed % 30) as u8] {
+		native::run_sweep(ib, seed, &mut st, t0 + Duration::from_secs(secs));
+	}
+	native::run_random(seed, 0, max, &mut st, &mut |_, _| t0.elapsed() < Duration::from_secs(secs));
+	for (c, f) in &st.failures {
+		println!("{}", fail_line("WORKER_FAIL", c, f));
+	}
+	println!("WORKER_CASES {} fast_found={} zero_word={}", st.cases, st.fast_found, st.zero_word);
+	std::process::exit(if st.failures.is_empty() { 0 } else { 3 })
+}
+
+fn main() {
+	let a: Vec<String> = std::env::args().collect();
+	if a.get(1).map(|s| s.as_str()) == Some("--worker") {
+		worker(&a[2..]);
+	}
+	main_entry(spec_for, shard)
+}
